@@ -10,8 +10,8 @@
 (* swapped, two-phase flag set), and the region counts rebuilt from the    *)
 (* length of the file.                                                     *)
 (*                                                                         *)
-(* Not logged, chosen by TLC: whether the primary holds a current          *)
-(* allocator-state table (possible only under the two-phase flag).         *)
+(* Whether a slot holds a current allocator-state table (the quick path)   *)
+(* is read by the decoder as well (decoder/allocator_state_txn).           *)
 (***************************************************************************)
 EXTENDS RecoverOps, Json, IOUtils, TLC, Sequences
 
@@ -30,7 +30,9 @@ Allowed(rc) ==
       \* file is cut only after a header with the smaller counts is durable), somebody cut the file
       cut == pre.rec /\ (pre.q < pre.stored_q \/ (pre.q = pre.stored_q /\ pre.r < pre.stored_r))
   IN \E ast \in [{1, 2} -> BOOLEAN] :
-       /\ \A s \in {1, 2} : ast[s] => (pre.tpc /\ s = pre.primary)
+       \* the saved allocator state: read by the independent decoder (the table's transaction id equals the slot's);
+       \* TLC chooses only where the decoder could not read the system tree
+       /\ \A s \in {1, 2} : pre.slots[s].astate # "unknown" => ast[s] = (pre.slots[s].astate = "yes")
        /\ LET d == Decide(h, hok, serv, ast, ld.err) IN
           IF d.err THEN post.err = "Corrupted" \/ (cut /\ post.err = "Io")      \* (the Io case: see below)
           \* A cut file (outside every listed property; named here so that the rest of such records is still judged):
